@@ -7,7 +7,7 @@
    decided here by executed metamorphic pairs. *)
 From Coq Require Import List Arith ZArith Bool.
 From MM Require Import lib.ListSet lib.Values model.Heap model.Elig model.SearchParams model.SearchDefs model.Search
-  gen.Gen_HeapDict gen.Gen_Exhaustive proofs.OrderIso proofs.OrderIsoGreedy proofs.ExhaustiveBridge.
+  gen.Gen_HeapDict gen.Gen_Exhaustive gen.Gen_Greedy proofs.OrderIso proofs.OrderIsoGreedy proofs.ExhaustiveBridge proofs.GreedyBridge.
 Import ListNotations.
 
 Theorem C12_heap_depends_on_comparisons_only :
@@ -45,7 +45,18 @@ Theorem C12_translated_exhaustive_search_depends_on_comparisons_only :
     map (@des_groups K) (dd_get (gen_exhaustive_search O ltk A par shareS optB bud score0 replace_inv) 0%Z)
     = map (@des_groups K') (dd_get (gen_exhaustive_search O ltk' A par shareS optB bud score0' replace_inv') 0%Z).
 Proof. intros. rewrite !gen_exhaustive_groups. apply exhaustive_order_iso. assumption. Qed.
+Theorem C12_translated_greedy_search_depends_on_comparisons_only :
+  forall (V K K' : Type) (O : vops V) (ltk : K -> K -> bool) (ltk' : K' -> K' -> bool)
+         (A : assignments) (par : spar V) (shareS : set -> V) (bud : set -> set -> V)
+         (gkey : set -> set -> K) (gkey' : set -> set -> K') (zero_key : K) (zero_key' : K'),
+    (forall a a' b b', corr gkey gkey' zero_key zero_key' a a' -> corr gkey gkey' zero_key zero_key' b b' ->
+                       ltk a b = ltk' a' b') ->
+    forall fuel,
+      option_map (fun r => map (@des_groups K) (dd_get r 0%Z)) (gen_greedy_search O ltk A par shareS bud gkey zero_key fuel)
+      = option_map (fun r => map (@des_groups K') (dd_get r 0%Z)) (gen_greedy_search O ltk' A par shareS bud gkey' zero_key' fuel).
+Proof. intros. rewrite !gen_greedy_groups. apply greedy_order_iso. assumption. Qed.
 Print Assumptions C12_heap_depends_on_comparisons_only.
 Print Assumptions C12_exhaustive_depends_on_comparisons_only.
 Print Assumptions C12_greedy_depends_on_comparisons_only.
 Print Assumptions C12_translated_exhaustive_search_depends_on_comparisons_only.
+Print Assumptions C12_translated_greedy_search_depends_on_comparisons_only.
